@@ -140,6 +140,11 @@ F5_Leafs(t) ==
 NoFrags == <<>>
 FragsFG == << [name |-> "F", on |-> "Q"], [name |-> "G", on |-> "Q"] >>
 FragsF == << [name |-> "F", on |-> "Q"] >>
+\* F7: one fragment on a self-referential object type, spread at several depths of the operation: occurrences of one
+\* response key reached through the fragment and beside it, the fragment spread again below them
+FragsGO == << [name |-> "G", on |-> "O"] >>
+F7_Leafs(t) == IF t = "O" THEN { Sel("", "x") } ELSE {}
+F7_Comps(t) == CASE t = "Q" -> { Sel("", "o") } [] t = "O" -> { Sel("", "z") } [] OTHER -> {}
 
 \* outcome tables
 OT_AllVal == << <<>> >>
